@@ -256,17 +256,55 @@ def _mentions(e: ast.AST, d: set[str]) -> bool:
     return any((isinstance(x, ast.Name) and x.id in d) or (isinstance(x, ast.Attribute) and norm(x) in d) for x in ast.walk(e))
 
 
-def _unit_over(v: FuncInfo, call: ast.Call, d: set[str], repo: Repo, T) -> ast.AST | None:
+def _elem_classes(t) -> set[str] | None:
+    """Repo classes among the element type(s) of an iterable type (tuples flattened); None when the element type is unknown."""
+    from core.types import elem_type
+
+    out: set[str] = set()
+    known = False
+
+    def walk(x) -> None:
+        nonlocal known
+        for m in members(x):
+            if m[0] == "cls":
+                known = True
+                out.add(m[1])
+            elif m[0] == "b" and m[1] == "tuple":
+                for a in m[2]:
+                    walk(a)
+            elif m[0] == "b":
+                known = True
+            elif m[0] in ("lib", "type", "fn"):
+                known = True
+
+    walk(elem_type(t))
+    return out if known else None
+
+
+def _unit_over(v: FuncInfo, call: ast.Call, d: set[str], repo: Repo, T, by_class: set[str] | None = None) -> ast.AST | None:
     """Outermost statement that makes `call` happen once per element of a collection derived from `d`: an enclosing loop or
-    comprehension over it, a bulk call taking it as argument, or a call of a helper that loops over it."""
+    comprehension over it, a bulk call taking it as argument, or a call of a helper that loops over it.  With `by_class`, a loop
+    whose element type is known counts exactly when its elements are instances of one of these classes (the data flow is only
+    consulted for untyped iterables): aggregates holding both arguments do not blur the picture."""
+
+    def over(it: ast.AST) -> bool:
+        if by_class is not None:
+            try:
+                ec = _elem_classes(T.expr(v, it))
+            except Exception:  # noqa: BLE001
+                ec = None
+            if ec is not None:
+                return bool(ec & by_class)
+        return _mentions(it, d)
+
     unit = None
     for lp in loops_around(call, v.node):
         for _t, it in iter_sources(lp):
-            if _mentions(it, d):
+            if over(it):
                 unit = lp if isinstance(lp, (ast.For, ast.AsyncFor)) else stmt_of(lp)
     if unit is not None:
         return unit
-    if any(_mentions(a, d) for a in [*call.args, *[k.value for k in call.keywords]]):
+    if any(over(a) for a in [*call.args, *[k.value for k in call.keywords]]):
         return stmt_of(call)
     attrs = {x.split(".", 1)[1] for x in d if x.startswith("self.")}
     try:
@@ -278,6 +316,15 @@ def _unit_over(v: FuncInfo, call: ast.Call, d: set[str], repo: Repo, T) -> ast.A
         for n in own_nodes(gv.node):
             its = [n.iter] if isinstance(n, (ast.For, ast.AsyncFor, ast.comprehension)) else []
             for it in its:
+                if by_class is not None:
+                    try:
+                        ec = _elem_classes(T.expr(gv, it))
+                    except Exception:  # noqa: BLE001
+                        ec = None
+                    if ec is not None:
+                        if ec & by_class:
+                            return stmt_of(call)
+                        continue
                 if any(isinstance(x, ast.Attribute) and isinstance(x.value, ast.Name) and x.attr in attrs for x in ast.walk(it)):
                     return stmt_of(call)
     return None
@@ -338,11 +385,20 @@ def run_r1(repo: Repo, res: Result) -> None:
             res.undecide("C15.R1", okey, "the constructor does not take (modules, imports): cannot tell module registration from import edges")
         else:
             d_mod, d_imp = _derived(v, params[0]), _derived(v, params[1])
+            # the imports argument is recognised by the class of its elements where the annotation tells it
+            imp_classes: set[str] | None = None
+            ec = _elem_classes(T.param_type(init, params[1]))
+            if ec:
+                imp_classes = set()
+                for fq in ec:
+                    ci = repo.classes.get(fq)
+                    if ci is not None:
+                        imp_classes |= {c.fq for c in repo.mro(ci)} | {c.fq for c in repo.subclasses(ci)}
             node_units: list[ast.AST] = []
             edge_units: list[ast.AST] = []
             for s, e in ev.items():
                 for c in e.get("edge", []):
-                    u = _unit_over(v, c, d_imp, repo, T)
+                    u = _unit_over(v, c, d_imp, repo, T, imp_classes)
                     if u is not None and u not in edge_units:
                         edge_units.append(u)
             for s, e in ev.items():
